@@ -278,7 +278,8 @@ def history_tree(shape_combos, max_sel, variants=VARIANTS, desc_max=99):
             tot = n_rows(p[0])
             cross = list(itertools.product(*[range(t) for t in tot]))
             menu = []
-            for k in range(0, max_sel + 1):
+            ms = max_sel(p[0]) if callable(max_sel) else max_sel
+            for k in range(0, ms + 1):
                 menu.extend(itertools.combinations(cross, k))
             return menu
         if len(p) == 3:
@@ -297,12 +298,15 @@ def run(ctx):
     one = [(c,) for c in shape_lists(3, 3)]
     if q:
         two = [(a, b) for a in shape_lists(2, 2) for b in shape_lists(2, 2)]
-        ctx.explore("one-einsum", history_tree(one, 3, desc_max=2), body, shard_depth=2,
+        sel = lambda shapes: 3 if sum(n_rows(shapes)) <= 4 else 2
+        ctx.explore("one-einsum", history_tree(one, sel, desc_max=2), body, shard_depth=2,
                     distinct_by_construction=True)
-        ctx.explore("two-einsums", history_tree(two, 2), body, shard_depth=2, distinct_by_construction=True)
-        ctx.bound(one_einsum="1-3 tables x 0-3 rows, every selection of <= 3 joined rows (ascending; pairs also "
-                             "descending)",
-                  two_einsums="1-2 tables x 0-2 rows each, every selection of <= 2 joined rows, both orders",
+        ctx.explore("two-einsums", history_tree(two, 2, variants=VARIANTS[1:]), body, shard_depth=2,
+                    distinct_by_construction=True)
+        ctx.bound(one_einsum="1-3 tables x 0-3 rows, every selection of <= 2 joined rows in both orders, and of 3 "
+                             "joined rows (ascending) when the Einsum has <= 4 rows in total",
+                  two_einsums="1-2 tables x 0-2 rows each, every selection of <= 2 joined rows, both orders, "
+                              "variants with payload only",
                   variants=VARIANTS)
     else:
         two = [(a, b) for a in shape_lists(2, 3) for b in shape_lists(2, 2)]
